@@ -36,6 +36,7 @@ AllExt == {"hbh", "rt", "fr"}
 EncGroupRecord(r) == r.Type \o r.AuxDataLen \o r.NumberOfSources \o r.MulticastAddress \o Flat(r.SourceAddresses) \o Flat(r.AuxData)
 \* DHCP (RFC 2131 / 2132): fixed 236-byte header, magic cookie, options (pad and end are single bytes)
 EncDhcpOpt(o) == IF o.Tag \in {<<0>>, <<255>>} THEN o.Tag ELSE o.Tag \o <<Len(o.Data)>> \o o.Data
+\* (the Go value of an option is projected as [T |-> "DHCPOption", Tag, Data])
 HasEnd(opts) == \E i \in DOMAIN opts : opts[i].Tag = <<255>>
 EncDhcp(d) == d.Operation \o d.HardwareType \o d.HardwareLen \o d.HardwareOpts \o d.Xid \o d.Secs \o d.Flags \o d.ClientIP \o d.YourIP
               \o d.ServerIP \o d.GatewayIP \o d.ClientHWAddr \o Zeros(16 - Len(d.ClientHWAddr)) \o d.ServerName \o d.File \o <<99, 130, 83, 99>>
